@@ -2,7 +2,7 @@
    The template definitions come from QPG.templates, regenerated from /repo on every run. *)
 From Coq Require Import List Bool Reals Lia String ZArith.
 From QP Require Import Cx Apply Gates Rsem.
-From QPM Require Import Transpile Period Native Pauli PauliRot.
+From QPM Require Import Transpile Period Native Pauli PauliRot ZYZRebuild.
 From QPG Require Import templates fusers native nativegen snaps.
 From QP Require Import Local.
 Import ListNotations.
@@ -227,6 +227,17 @@ Theorem rotation_normalisation_lands_in_the_cycle_range : forall lower theta,
   (lower <= normalize lower theta < lower + 2 * PI)%R.
 Proof. exact normalized_angle_in_range. Qed.
 Print Assumptions rotation_normalisation_preserves_action.
+
+(* SingleQubitUnitaryMatrix2RYRZTranspiler (fix 835fc47) hands su2_decompose the stored first row (a, b) and the second row
+   rebuilt from it and the unit determinant factor D: whatever the (possibly meaningless) phases of small entries are, that
+   matrix is unitary with determinant D - its entries are consistent, which the angle formulas need. (The formulas themselves -
+   acos / log on floats - stay with the sweep, which includes matrices next to their branch thresholds.) *)
+Theorem rebuilt_second_row_gives_a_consistent_unitary : forall a b D : C,
+  (Cnorm2 a + Cnorm2 b = 1)%R -> Cnorm2 D = 1%R ->
+  let '(c, d) := rebuilt_row a b D in
+  Cadd (Cmul a (Cconj a)) (Cmul b (Cconj b)) = C1 /\ Cadd (Cmul c (Cconj c)) (Cmul d (Cconj d)) = C1 /\
+  Cadd (Cmul a (Cconj c)) (Cmul b (Cconj d)) = C0 /\ Csub (Cmul a d) (Cmul b c) = D.
+Proof. exact rebuilt_matrix_is_unitary. Qed.
 
 Example c01_nonvacuous :
   Forall cgate_ok [mkC KCNOT [3; 1]%nat []; mkC KRX [2]%nat [1%R]; mkC KTOFFOLI [0; 4; 2]%nat []].
